@@ -322,13 +322,17 @@ class SimOps:
         self.po_s_locs = np.flatnonzero(self.c_locs[self.ppo_offset+np.arange(len(self.circuit.io_nodes))] >= 0)
         self.ppio_s_locs = np.arange(len(self.circuit.io_nodes), self.s_len)
 
-        self.pippi_s_locs = np.concatenate([self.pi_s_locs, self.ppio_s_locs])
-        self.poppo_s_locs = np.concatenate([self.po_s_locs, self.ppio_s_locs])
+        # state elements without any output (input) line have no PPI (PPO) slot: c_locs is -1 there
+        ppi_s_locs = self.ppio_s_locs[self.c_locs[self.ppi_offset+self.ppio_s_locs] >= 0]
+        ppo_s_locs = self.ppio_s_locs[self.c_locs[self.ppo_offset+self.ppio_s_locs] >= 0]
+
+        self.pippi_s_locs = np.concatenate([self.pi_s_locs, ppi_s_locs])
+        self.poppo_s_locs = np.concatenate([self.po_s_locs, ppo_s_locs])
 
         self.pi_c_locs = self.c_locs[self.ppi_offset+self.pi_s_locs]
         self.po_c_locs = self.c_locs[self.ppo_offset+self.po_s_locs]
-        self.ppi_c_locs = self.c_locs[self.ppi_offset+self.ppio_s_locs]
-        self.ppo_c_locs = self.c_locs[self.ppo_offset+self.ppio_s_locs]
+        self.ppi_c_locs = self.c_locs[self.ppi_offset+ppi_s_locs]
+        self.ppo_c_locs = self.c_locs[self.ppo_offset+ppo_s_locs]
 
         self.pippi_c_locs = np.concatenate([self.pi_c_locs, self.ppi_c_locs])
         self.poppo_c_locs = np.concatenate([self.po_c_locs, self.ppo_c_locs])
